@@ -1,6 +1,7 @@
 package main
 
 import (
+	"strings"
 	"bytes"
 	"encoding/json"
 	"fmt"
@@ -256,6 +257,22 @@ func init() {
 					res["rest_keys"] = restKeys(tt, opts.TypeSchemas, objectKeys(fb))
 				}
 				res["zero_keys"] = objectKeys(zb)
+				// fields that encoding/json can never emit: omitempty on a zero-length array type (always "empty")
+				never := []string{}
+				for _, f := range reflect.VisibleFields(tt) {
+					if f.Anonymous || !f.IsExported() {
+						continue
+					}
+					tag := f.Tag.Get("json")
+					name, optsS, _ := strings.Cut(tag, ",")
+					if name == "" {
+						name = f.Name
+					}
+					if strings.Contains(","+optsS+",", ",omitempty,") && f.Type.Kind() == reflect.Array && f.Type.Len() == 0 {
+						never = append(never, name)
+					}
+				}
+				res["never_emitted"] = never
 				props := []string{}
 				for k := range s1.Properties {
 					props = append(props, k)
@@ -477,6 +494,9 @@ func mutations(v any) []any {
 		case float64, json.Number:
 			for _, x := range intVals {
 				out = append(out, rebuild(x))
+			}
+			for _, x := range []string{"128", "-129", "256", "-1", "65536", "32768", "4294967296", "2147483648", "-2147483649"} {
+				out = append(out, rebuild(json.Number(x))) // bound pushes as json.Number too (the exact-number path of the validator)
 			}
 			for _, x := range []string{"9223372036854775807", "-9223372036854775808"} { // inside int64: the range every 64-bit kind shares on its own side
 				out = append(out, rebuild(json.Number(x)))
